@@ -1021,7 +1021,7 @@ func init() {
 				Rule: fmt.Sprintf("each of the four hash functions twice at the same time on different images under the cooperative scheduler of C05 (every schedule and pool answer with <= %d deviations): each hash must equal the hash of its own image computed alone", pb)})
 			if raceBin := os.Getenv("VCHECK_RACE_BIN"); raceBin != "" {
 				sp = append(sp, mc.Space{Name: "concurrent-hash-pairs/race-detector", H: c05HarnessOf(c19HashPairs), Bound: pb - 1, Isolate: true, SplitDepth: 1,
-					Binary: raceBin, Env: []string{"GORACE=halt_on_error=1 exitcode=66"},
+					Binary: raceBin, Env: []string{"GORACE=halt_on_error=1 exitcode=66 history_size=7"},
 					Rule: "the same in the -race build: work areas shared between two calls of one function show as a data race whatever the schedule"})
 			}
 			return sp
